@@ -300,13 +300,20 @@ func builtinJSONStringifyWalk(ctx builtinJSONStringifyContext, key string, holde
 			} else {
 				// Go maps are without order, so this doesn't conform to the ECMA ordering
 				// standard, but oh well...
+				// Take the list of names first (ECMA 262 15.12.3 JO step 6): a member
+				// that a replacer or toJSON call deletes before its turn is still passed
+				// to the replacer (as undefined), which enumerate would skip.
+				var names []string
 				objHolder.enumerate(false, func(name string) bool {
+					names = append(names, name)
+					return true
+				})
+				for _, name := range names {
 					value, exists := builtinJSONStringifyWalk(ctx, name, objHolder)
 					if exists {
 						obj[name] = value
 					}
-					return true
-				})
+				}
 			}
 			return obj, true
 		}
